@@ -365,6 +365,122 @@ def _is_tree_hash(e):
     return _is_call(e, "hash") and len(e.args) == 1 and not e.keywords and dotted(e.args[0]) == TREE
 
 
+def _expand(ctx, f, e, depth=0):
+    """`e` with the single-definition temporaries of f substituted and every call of an *expression helper* of the package
+    (a function outside the baseline vocabulary whose body is `return E`, possibly after single-definition temporaries, that
+    the normaliser left as a function - e.g. because E contains a lambda) replaced by E with the arguments bound to the
+    parameters.  The term is only built, never evaluated."""
+    e = _inl(f, e)
+    if depth > 3:
+        return e
+    base = _baseline_funcs(f.module.name)
+
+    class _Calls(ast.NodeTransformer):
+        def visit_Lambda(self, node):
+            return node
+
+        def visit_Call(self, node):
+            node = self.generic_visit(node)
+            try:
+                cal = ctx.rs.resolve_call(f, node)
+            except Exception:
+                return node
+            h = cal.func if cal.kind == "func" else None
+            if h is None or h.module.name != f.module.name or h.qualname in base or h.fq == f.fq:
+                return node
+            sts = list(statements(h.node))
+            rets = [s for s in sts if isinstance(s, ast.Return)]
+            if len(rets) != 1 or rets[0].value is None or rets[0] is not h.node.body[-1]:
+                return node
+            if not all(s is rets[0] or (isinstance(s, ast.Assign) and len(s.targets) == 1 and isinstance(s.targets[0], ast.Name)) or isinstance(s, ast.AnnAssign) for s in sts):
+                return node
+            method = bool(h.cls) and isinstance(node.func, ast.Attribute) and bool(params(h.node))
+            env = dict(bind_args(node, h.node, skip_self=method))
+            if method:
+                env[params(h.node)[0]] = node.func.value
+            if any(v is None for v in env.values()) or set(params(h.node)) - set(env):
+                return node
+            body = _expand(ctx, h, rets[0].value, depth + 1)
+
+            class _Bind(ast.NodeTransformer):
+                def visit_Name(self, n):
+                    return copy.deepcopy(env[n.id]) if isinstance(n.ctx, ast.Load) and n.id in env else n
+
+                def visit_Lambda(self, n):
+                    shadow = {a.arg for a in n.args.posonlyargs + n.args.args + n.args.kwonlyargs}
+                    return n if shadow & set(env) else self.generic_visit(n)
+
+            return ast.copy_location(_Bind().visit(copy.deepcopy(body)), node)
+
+    return _Calls().visit(copy.deepcopy(e))
+
+
+def _defines(ctx, cname, meth, _seen=()):
+    """Does class `cname` of c2profile.py (or a base class written in that module) define method `meth`?"""
+    if cname in _seen or not ctx.repo.has_func(f"{MOD}.{cname}.{meth}") and cname not in ctx.repo.module(MOD).classes:
+        return False
+    if ctx.repo.has_func(f"{MOD}.{cname}.{meth}") or meth in ctx.repo.class_attrs(f"{MOD}.{cname}"):
+        return True
+    node = ctx.repo.cls(f"{MOD}.{cname}")
+    return any(_defines(ctx, dotted(b) or "", meth, tuple(_seen) + (cname,)) for b in node.bases)
+
+
+# what a cache key says about the tree it is made from (R2)
+_LOSSY_WHY = {
+    "scan_values": "Tree.scan_values yields only the leaves (tokens) that satisfy the predicate - never a Tree node nor its name (lemma L5), so statements "
+                   "without an argument (base64; mask; print; CreateThread; BeaconGate entries ...) and the block structure do not enter the key",
+    "len": "a number of elements: two trees of the same size have the same key",
+    "id": "the identity of the object: a modification in place (children appended, a node renamed) keeps it",
+    "data": "only the name of the root node",
+    "meta": "position information, not the content",
+    "self": "the profile object has no __hash__/__eq__ of its own: hash()/id() of it is its identity, which modifications of the tree keep",
+}
+
+
+def _key_class(ctx, f, k):
+    """What the key term k (already expanded) covers of `self.tree`: ("whole", None) for hash(self.tree) (lark hashes (data, children)
+    recursively), ("lossy", [reasons]) when every way the term depends on the profile goes through a projection that provably drops
+    part of the tree, ("foreign", [reason]) when the term does not mention the profile at all, else None (not understood)."""
+    if _is_tree_hash(k):
+        return ("whole", None)
+    parent = {}
+    for n in ast.walk(k):
+        for c in ast.iter_child_nodes(n):
+            parent[id(c)] = n
+    selfs = [n for n in ast.walk(k) if isinstance(n, ast.Name) and n.id == "self"]
+    if not selfs:
+        if any(isinstance(n, (ast.Name, ast.Attribute)) and isinstance(getattr(n, "ctx", None), ast.Load) and not (isinstance(n, ast.Name) and n.id in ("hash", "tuple", "len", "id", "str", "repr", "frozenset"))
+               for n in ast.walk(k) if not isinstance(parent.get(id(n)), ast.Attribute)):
+            return None  # some other name (a parameter, a module-level object): not understood
+        return ("foreign", ["the term does not mention the profile"])
+    why = []
+    for s in selfs:
+        p = parent.get(id(s))
+        if isinstance(p, ast.Attribute) and p.attr == "tree":
+            q = parent.get(id(p))
+            if isinstance(q, ast.Attribute) and q.value is p:
+                qq = parent.get(id(q))
+                if q.attr == "scan_values" and isinstance(qq, ast.Call) and qq.func is q:
+                    why.append("scan_values")
+                elif q.attr in ("data", "meta"):
+                    why.append(q.attr)
+                elif q.attr == "children" and _is_call(qq, "len") and isinstance(qq.func, ast.Name) and qq.args == [q]:
+                    why.append("len")
+                else:
+                    return None
+            elif isinstance(q, ast.Call) and isinstance(q.func, ast.Name) and q.func.id in ("len", "id") and q.args == [p] and not q.keywords:
+                why.append(q.func.id)
+            else:
+                return None
+        elif isinstance(p, ast.Call) and isinstance(p.func, ast.Name) and p.func.id in ("hash", "id") and p.args == [s] and not p.keywords:
+            if f.cls is None or _defines(ctx, f.cls, "__hash__") or _defines(ctx, f.cls, "__eq__"):
+                return None
+            why.append("self")
+        else:
+            return None
+    return ("lossy", sorted(set(why)))
+
+
 # ---------------------------------------------------------------------------------------------- trees built in code
 def _tree_parts(f, e):
     """(data expression, children expression) of a `Tree(data, children)` construction (positional or keyword)."""
